@@ -271,7 +271,7 @@ func TestC20Shares(t *testing.T) {
 		seed := rapid.Uint64().Draw(t, "seed")
 		vlib.Class(sub, fmt.Sprintf("leaves=%d", leaves))
 		if err := (&Formula{Gates: append([]Gate{}, f.Gates...)}).wellformed(); err != nil {
-			t.Fatalf("SELFTEST-FAIL generated formula is not well-formed: %v (%v)", err, f.Gates)
+			t.Fatalf("SELFTEST-FAIL the generator's formula (a binary tree of and/or gates, well-formed by construction) is refused by circl's Formula.wellformed: %v (%v); either the generator or wellformed is wrong, the share check cannot proceed", err, f.Gates)
 		}
 		if !c20CheckFormula(t, sub, f, leaves, tree.eval, tree.text(), seed) {
 			return
@@ -334,8 +334,14 @@ func TestC20UnauthorisedKey(t *testing.T) {
 		if err != nil {
 			t.Fatalf("DeriveAttributeKeysCCA: %v", err)
 		}
-		if _, err := DecryptCCA(ct, key); err == nil {
-			t.Fatalf("SELFTEST-FAIL case %q: the key is supposed to be unauthorised but DecryptCCA succeeds", c.name)
+		if pt, err := DecryptCCA(ct, key); err == nil {
+			// the attributes of every case do not satisfy its policy (fixed table above): decryption with such a
+			// key is the violation C20 is about, not a harness error
+			vlib.ReportDirect(t, "C20/whitebox/DecryptCCA/accepts-unsatisfying", fmt.Sprintf("case %q: the attributes do not satisfy the policy, yet DecryptCCA returns no error (plaintext %q, message %q)", c.name, pt, msg), map[string]interface{}{"case": c.name})
+			if t.Failed() {
+				return
+			}
+			continue
 		}
 		rest, rm := checkCiphertextFormat(ct)
 		id, rest, e1 := removeLenPrefixed(rest)
@@ -369,7 +375,7 @@ func TestC20UnauthorisedKey(t *testing.T) {
 		// labels in the reduced policy are distinct in these cases, so every wire uses c2[pi] of the full policy;
 		// the cases are chosen such that pi = 0 for every kept wire
 		if maxd != 0 {
-			t.Fatalf("SELFTEST-FAIL case %q needs c2 index %d", c.name, maxd)
+			t.Fatalf("SELFTEST-FAIL case %q: circl's Policy.pi() (after transformBK) assigns c2 index %d to a kept wire; the fixed cases of the harness assume index 0 for distinct labels (pi changed, outside C20, or the case table is stale)", c.name, maxd)
 		}
 		red.c2 = hdr.c2[:1]
 		n := len(keep) - 1
